@@ -351,4 +351,5 @@ func TestC06(t *testing.T) {
 		}
 	}
 	c06Part.Run(s, hx.PerShard(hx.Pick(240000, 4000000)))
+	c06Part.RunConcurrent(s, 8, hx.Pick(1500, 20000))
 }
